@@ -14,7 +14,7 @@
 //            GlyphCache on the base font with these Gloc and Glat tables (exact-size buffers); for each gid the attributes of the glyph
 //            -> fault | noglyphs | ok <numGlyphs> <numAttrs> <hasBoxes> | <per gid: - (no such glyph) | F (not loaded) |
 //                 n=<chunks> C:<digest of the chunks: mask bits 0-23, 24-47, offset> V:<digest of the values> L:<attrs[key],…> B:<sub-boxes>,<bitmap> or B:->
-//         codeinfo                          -> <numClasses> <numGlyphAttrs> <numFeatures> <numUser>: the limits the code loader takes from the base font
+//         codeinfo                          -> <numClasses> <numGlyphAttrs> <numFeatures> <numUser> <sizeof(instr)>: the limits the code loader takes from the base font, and the size of an instruction slot (the model's pool arithmetic assumes 8)
 //         code <constraint 0|1> <passtype> <pre_context> <rule_length> <classes> <gattrs> <feats> <user> <hex bytecode>
 //            Machine::Code's loading constructor on exactly these bytes (own buffers); the four limits must be codeinfo's
 //            -> fault | S<status> | empty | ok ic=<instructions> ds=<data bytes> mr=<max_ref> mod=<0|1> del=<0|1> I:<opcodes incl. inserted TEMP_COPYs and the final RET_ZERO> D:<digest of data>
@@ -204,7 +204,7 @@ int main(int argc, char **argv) {
             delete ff;
             if (g_faults) out = "fault";
         } else if (w.size() == 1 && w[0] == "codeinfo") {
-            snprintf(buf, sizeof buf, "%u %u %u %u", (unsigned)silf->numClasses(), (unsigned)face->glyphs().numAttrs(), (unsigned)face->numFeatures(), (unsigned)silf->numUser());
+            snprintf(buf, sizeof buf, "%u %u %u %u %u", (unsigned)silf->numClasses(), (unsigned)face->glyphs().numAttrs(), (unsigned)face->numFeatures(), (unsigned)silf->numUser(), (unsigned)sizeof(vm::instr));
             out = buf;
         } else if (w.size() == 10 && w[0] == "code" && parse_hex(w[9], b)) {
             // Machine::Code(is_constraint, begin, end, pre_context, rule_length, silf, face, pt) on exactly these bytes;
